@@ -75,37 +75,23 @@ def commit(repo, run, m):
         run.report("C03.2", DS, call, "the integrator is not called with (rhs, t[counter], y[counter], constants, timestep=<local step>): the step "
                                       "would not start from the last committed row")
         return
-    dtname = step_arg.id
-    # (a') the local step: assigned in the two branches of the final-step test
-    defs = [st for st in walk_no_nested(m.loop) if isinstance(st, ast.Assign) and any(isinstance(t, ast.Name) and t.id == dtname for t in st.targets)]
-    final_if = None
-    okdefs = len(defs) == 2
-    clamp = free = None
-    for st in defs:
-        if _is_remaining(m, c, st.value, sign_free=False):
-            clamp = st
-        elif c.text(st.value) == "self.dt":
-            free = st
-    okdefs = okdefs and clamp is not None and free is not None
+    fs = m.final_step()
+    okdefs = fs is not None and fs["clamp"] is not None and fs["free"] is not None and len(fs["defs"]) == 2
     run.judged(rid, "local step is `tf - t[counter]` on the final step and `self.dt` otherwise", ok=okdefs)
     if not okdefs:
+        defs = fs["defs"] if fs else []
         run.report("C03.2", DS, defs[0] if defs else m.loop, "the step handed to the integrator is not exactly one of {self.dt, tf - t[counter]}: %s" % (
             [src(d) for d in defs]), text="local step definitions: %s" % [src(d.value) for d in defs])
     else:
-        final_if = clamp._parent
-        okif = isinstance(final_if, ast.If) and clamp in final_if.body and free in final_if.orelse
-        # is_final_step flags
-        flag_true = [st for st in final_if.body if isinstance(st, ast.Assign) and isinstance(st.value, ast.Constant) and st.value.value is True] if okif else []
-        flag_false = [st for st in final_if.orelse if isinstance(st, ast.Assign) and isinstance(st.value, ast.Constant) and st.value.value is False] if okif else []
-        okif = okif and len(flag_true) == 1 and len(flag_false) == 1 and src(flag_true[0].targets[0]) == src(flag_false[0].targets[0])
-        run.judged(rid, "clamp and final-step flag are set together in one if/else", ok=okif)
+        okif = fs["complementary"] and fs["flag_ok"]
+        run.judged(rid, "clamp and final-step flag are set together under complementary conditions", ok=okif)
         if not okif:
-            run.report("C03.2", DS, final_if if isinstance(final_if, ast.If) else clamp, "the clamp `tf - t` and the final-step flag are not set together in the two "
-                                                                                        "branches of one test", text="final-step if/else structure")
+            run.report("C03.2", DS, fs["clamp"], "the clamp `tf - t` and the final-step flag are not set together under one test and its negation",
+                       text="final-step if/else structure")
         else:
-            m.final_flag = src(flag_true[0].targets[0])
-            m.final_if = final_if
-            _final_predicate(run, rid, m, c, final_if)
+            m.final_flag = fs["flag"]
+            m.final_if = fs["clamp"]._parent
+            _final_predicate(run, rid, m, c, fs)
     # (b) row writes
     wy = c.poly(m.commit_y.value)
     wt = c.poly(m.commit_t.value)
@@ -148,23 +134,45 @@ def commit(repo, run, m):
                                              "target or never reach it")
 
 
-def _final_predicate(run, rid, m, c, final_if, rule_id="C03.2"):
-    """the branch that clamps must be taken whenever |self.dt| > |tf - t| (and only then)."""
-    test = final_if.test
-    cmps = [n for n in ast.walk(test) if isinstance(n, ast.Compare)]
-    ok = False
-    for cmp_ in cmps:
-        if len(cmp_.ops) != 1:
-            continue
-        l, r, op = cmp_.left, cmp_.comparators[0], cmp_.ops[0]
-        for a, b, ops in ((l, r, (ast.Gt, ast.GtE)), (r, l, (ast.Lt, ast.LtE))):
-            aa, bb = _abs_arg(a), _abs_arg(b)
-            if aa is not None and bb is not None and isinstance(op, ops):
-                pa = c.poly(aa)
-                if (pa == Poly.atom("self.dt") or pa == -Poly.atom("self.dt") or c.text(aa) == "self.__dt") and _is_remaining(m, c, bb):
-                    ok = True
-    # the comparison must be a conjunct of the test on the clamping side (other conjuncts may only restrict to finite targets)
-    run.judged(rid, "final-step predicate: %s" % src(test)[:140], ok=ok)
+def _final_predicate(run, rid, m, c, fs, rule_id="C03.2"):
+    """the clamp must be taken exactly when the target is finite and |self.dt| > |tf - t| (>= also accepted), whatever the arrangement of
+    the branches: the path condition of the clamp is compared by truth table with  not implicit_integration and <magnitude comparison>."""
+    from ..sym import equivalent, tree_atoms
+    cond, bt = fs["cond"], fs["tracker"]
+    atoms = tree_atoms(cond)
+    cmp_atoms = []
+    for a in atoms:
+        leaf = bt.leaves.get(a)
+        if isinstance(leaf, tuple):
+            left, op, right = leaf
+            for x, y, ops in ((left, right, (ast.Gt, ast.GtE)), (right, left, (ast.Lt, ast.LtE))):
+                ax, ay = _abs_arg(x), _abs_arg(y)
+                if ax is not None and ay is not None and isinstance(op, ops):
+                    pa = c.poly(ax)
+                    if (pa == Poly.atom("self.dt") or pa == -Poly.atom("self.dt") or c.text(ax) == "self.__dt") and _is_remaining(m, c, ay):
+                        cmp_atoms.append(a)
+    inf_atoms = [a for a in atoms if a not in cmp_atoms]
+    ok = len(cmp_atoms) == 1
+    cex = None
+    if ok:
+        def expected(asg):
+            # every other atom may only restrict the clamp to finite targets: the clamp is taken iff the comparison holds and they allow it
+            return asg[cmp_atoms[0]]
+        # project out the 'finite target' atoms: with the comparison true the clamp must be reachable, with it false it must not be
+        import itertools
+        from ..sym import eval_bool
+        for cv in (False, True):
+            reach = False
+            for vals in itertools.product((False, True), repeat=len(inf_atoms)):
+                asg = dict(zip(inf_atoms, vals))
+                asg[cmp_atoms[0]] = cv
+                if eval_bool(cond, asg):
+                    reach = True
+            if reach != cv:
+                ok = False
+                cex = cv
+    test = fs["clamp"]._parent.test if isinstance(fs["clamp"]._parent, ast.If) else fs["clamp"]
+    run.judged(rid, "final-step predicate (path condition of the clamp): %s" % src(test)[:140], ok=ok)
     if not ok:
         run.report(rule_id, DS, test, "the test that clamps the last step is not `|self.dt| > |tf - t[counter]|`: a step can overshoot the target, or a "
                                       "short step can be stretched to it")
